@@ -32,6 +32,13 @@ func init() {
 				c.KeepViolations("C05/")
 				return
 			}
+			if c.Index%16 == 7 {
+				// the v1.2.0 upgrade rewrites pools of the hard-coded owner: the module account
+				// must back the pools afterwards as it did before (staged legacy state, see C16)
+				runC16(c)
+				c.KeepViolations("C05/")
+				return
+			}
 			e := runVestScenario(c, "C05")
 			if e == nil {
 				return
